@@ -540,6 +540,43 @@ theorem finish_false_empty (c d r : Bool) (rp b : List MPub) (top e off : Nat) (
     subst h
     rfl
 
+/-- shape of the stream-mode subscribe for an arbitrary buffer: the recovery decision does not
+depend on what was buffered -/
+theorem streamSubscribe_shape (limit : Nat) (s : RStream) (hi : s.Inv) (req : Req) (hoff : req.offset < U64)
+    (pass : Pub → Bool) (buffered : List MPub) :
+    streamSubscribe limit s req pass buffered =
+      if streamCond limit s req then
+        finish false false true ((s.log.drop req.offset).map (toM pass)) buffered s.top s.epoch req.offset true
+      else if req.reject then .unrecoverable
+      else finish false false false [] buffered s.top s.epoch req.offset true := by
+  have hspec := isr_spec s hi req.offset req.epoch limit hoff pass
+  unfold streamSubscribe
+  by_cases hep : req.epoch = 0 ∨ req.epoch = s.epoch
+  · have hb : (req.epoch == 0 || req.epoch == s.epoch) = true := by
+      rcases hep with h | h <;> simp [h]
+    simp only [hb, Bool.not_true, Bool.false_eq_true, if_false]
+    rw [hspec]
+    by_cases hc : streamCond limit s req
+    · have hc' : (req.epoch = 0 ∨ req.epoch = s.epoch) ∧ req.offset ≤ s.top ∧ s.lo ≤ req.offset ∧
+          ¬ truncated limit s req.offset := hc
+      rw [if_pos hc, if_pos hc']
+    · have hc' : ¬ ((req.epoch = 0 ∨ req.epoch = s.epoch) ∧ req.offset ≤ s.top ∧ s.lo ≤ req.offset ∧
+          ¬ truncated limit s req.offset) := hc
+      rw [if_neg hc, if_neg hc']
+  · have hb : (req.epoch == 0 || req.epoch == s.epoch) = false := by
+      simp only [not_or] at hep
+      simp [hep.1, hep.2]
+    have hc : ¬ streamCond limit s req := fun h => hep h.1
+    simp only [hb, Bool.not_false, if_true]
+    rw [if_neg hc]
+
+theorem finish_cases (c d r : Bool) (rp b : List MPub) (top e off : Nat) (w : Bool) :
+    finish c d r rp b top e off w = .insufficient ∨ (finish c d r rp b top e off w).recovered = r := by
+  unfold finish
+  split
+  · exact Or.inl rfl
+  · exact Or.inr rfl
+
 theorem streamSubscribe_cases (limit : Nat) (s : RStream) (req : Req) (pass : Pub → Bool)
     (buffered : List MPub) :
     streamSubscribe limit s req pass buffered = .unrecoverable ∨
